@@ -1,4 +1,7 @@
-import CoxeterVerif.Lemmas.CurvedMeasure
+import CoxeterVerif.Lemmas.CurvedMoments3
+import CoxeterVerif.Lemmas.CurvedSpheroid3
+import CoxeterVerif.Lemmas.CurvedSurfaceSymm
+import CoxeterVerif.Lemmas.CurvedHistory
 /-!
   # C10 — circle, ellipse, sphere and ellipsoid measures equal their defining integrals
 
@@ -7,13 +10,17 @@ import CoxeterVerif.Lemmas.CurvedMeasure
 
   What "defining integral" means in each theorem (stated per section):
   * areas / volumes      — Lebesgue measure of the point set in `EuclideanSpace ℝ (Fin 2|3)` (Mathlib);
-  * second moments       — SPEC = textbook centred second moments (`CSpec.discCentred`, … — trusted
-                           closed forms) + the translation law of integrals (`Mom.shift`, PROVED for
-                           every finite measure: `moments_shift_integral*`) + `I = ∫(|r|²1 − r rᵀ)`;
-  * perimeter            — `4 ∫₀^{π/2}` of the speed of `θ ↦ (a cos θ, b sin θ)` (Mathlib interval
-                           integral), relative to the contract `IsEllipe` of `scipy.special.ellipe`;
-  * ellipsoid surface    — only `_partial` (permutation symmetry, homogeneity, sphere value): Legendre's
-                           formula itself is not proved; it is validated numerically by the harness.
+  * second moments       — Lebesgue integrals `∫_S 1, ∫_S x_i, ∫_S x_i x_j` over those point sets (§1b, §2b): the
+                           records `CSpec.discCentred`, … of the spec are PROVED to be these integrals (polar
+                           coordinates + symmetry + linear change of variables, `Lemmas/CurvedMoments*.lean`), the
+                           translation law is proved for every finite measure (§0), `I = ∫(|r|²1 − r rᵀ)`;
+  * perimeter            — `4 ∫₀^{π/2}` of the speed of `θ ↦ (a cos θ, b sin θ)` (Mathlib interval integral), relative
+                           to the contract `IsEllipe` of `scipy.special.ellipe` (checked per run);
+  * ellipsoid surface    — `surfaceIntegral a b c = ∫₀^π∫₀^{2π} |∂θ×∂φ|` (§8).  The code's formula is PROVED equal to it on
+                           all spheroids (relative to the contracts of `ellipeinc/ellipkinc`); for three distinct axes
+                           Legendre's formula is a per-run checked certificate (`_partial`).  The isoperimetric inequality
+                           is proved for the surface integral of EVERY ellipsoid;
+  * histories            — §9: shapes reached through setters have the getters of the fresh shape.
 -/
 open Curved MeasureTheory
 set_option maxRecDepth 4000
@@ -96,7 +103,7 @@ example : momOf2 (Measure.count : Measure (Fin 4)) (fun ω => ![1, -1, 0, 0] ω 
 
 /-! ## 1. Sphere / Ellipsoid: inertia tensor about the origin
 
-Spec: textbook centred second moments of the ellipsoid (`∫x² = V a²/5`, …; trusted closed forms),
+Spec: centred second moments of the ellipsoid (`∫x² = V a²/5`, …; PROVED to be the Lebesgue integrals in §1b),
 translated by the law above, `I = ∫(|r|²1 − r rᵀ)`.  The code instead builds the centroidal tensor
 `V/5 diag(b²+c², a²+c², a²+b²)` and applies `translate_inertia_tensor`. -/
 
@@ -156,6 +163,119 @@ theorem C10.ellipsoid_inertia_sphere (r : ℝ) (c : V3 ℝ) :
     CP.translateInertia, Scalar.lit, Scalar.q, Scalar.sqr, Scalar.cube, Scalar.ofNat_real, Nat.cast_ofNat,
     M3.mk.injEq]
   refine ⟨?_, ?_, ?_, ?_, ?_, ?_, ?_, ?_, ?_⟩ <;> ring
+
+/-! ## 1b. The centred second moments are THEOREMS about Lebesgue integrals (no trusted closed form)
+
+`CSpec.ellipsoidCentred`, `ballCentred`, `ellipseCentred`, `discCentred` (the "textbook" records used above) are the
+moment records `∫1, ∫x_i, ∫x_i x_j` of Lebesgue measure restricted to the point sets in `EuclideanSpace ℝ (Fin 2|3)`:
+polar coordinates for `∫_B |x|²` (`integral_fun_norm_addHaar`), coordinate swaps / reflections for the symmetry,
+the diagonal linear change of variables for the semi-axes (`Lemmas/CurvedMoments*.lean`), translation invariance for
+the centre.  Consequently `Sphere/Ellipsoid.inertia_tensor` ARE the inertia integrals about the origin. -/
+
+local notation "𝔼" n => EuclideanSpace ℝ (Fin n)
+
+/-- the inertia tensor about the origin of a unit-density body `μ` with coordinate functions `X Y Z`, entry by entry
+as the integral of `|r|² δ_ij − r_i r_j` -/
+def C10.inertiaIntegral (μ : Measure Ω) (X Y Z : Ω → ℝ) : M3 ℝ :=
+  ⟨∫ ω, (Y ω * Y ω + Z ω * Z ω) ∂μ, ∫ ω, -(X ω * Y ω) ∂μ, ∫ ω, -(X ω * Z ω) ∂μ,
+   ∫ ω, -(X ω * Y ω) ∂μ, ∫ ω, (X ω * X ω + Z ω * Z ω) ∂μ, ∫ ω, -(Y ω * Z ω) ∂μ,
+   ∫ ω, -(X ω * Z ω) ∂μ, ∫ ω, -(Y ω * Z ω) ∂μ, ∫ ω, (X ω * X ω + Y ω * Y ω) ∂μ⟩
+
+/-- `CSpec.Mom3.inertia` of the raw moment record is that integral (linearity) -/
+theorem C10.inertiaIntegral_eq (μ : Measure Ω) (X Y Z : Ω → ℝ) (hX : MemLp X 2 μ) (hY : MemLp Y 2 μ)
+    (hZ : MemLp Z 2 μ) : inertiaIntegral μ X Y Z = (momOf3 μ X Y Z).inertia := by
+  have hXY : ∫ ω, (X ω * X ω + Y ω * Y ω) ∂μ = (∫ ω, X ω * X ω ∂μ) + ∫ ω, Y ω * Y ω ∂μ :=
+    integral_add (hX.integrable_mul hX) (hY.integrable_mul hY)
+  have hXZ : ∫ ω, (X ω * X ω + Z ω * Z ω) ∂μ = (∫ ω, X ω * X ω ∂μ) + ∫ ω, Z ω * Z ω ∂μ :=
+    integral_add (hX.integrable_mul hX) (hZ.integrable_mul hZ)
+  have hYZ : ∫ ω, (Y ω * Y ω + Z ω * Z ω) ∂μ = (∫ ω, Y ω * Y ω ∂μ) + ∫ ω, Z ω * Z ω ∂μ :=
+    integral_add (hY.integrable_mul hY) (hZ.integrable_mul hZ)
+  simp only [inertiaIntegral, momOf3, CSpec.Mom3.inertia, integral_neg, hXY, hXZ, hYZ]
+
+/-- **the moments of the solid ellipsoid (any centre) are the record of the spec** -/
+theorem C10.ellipsoid_moments_integral (a b c : ℝ) (ha : 0 < a) (hb : 0 < b) (hc : 0 < c) (q : 𝔼 3) :
+    momOf3 (volume.restrict (ellipsoidSetAt a b c q)) (fun p => p 0) (fun p => p 1) (fun p => p 2)
+      = CSpec.ellipsoidAt Real.pi a b c ⟨q 0, q 1, q 2⟩ := by
+  have hp := pos3 ha hb hc
+  have := isFiniteMeasure_ellSet _ hp
+  rw [ellipsoidSetAt_eq, momOf3_translate,
+    moments_shift_integral3 (volume.restrict (ellSet ![a, b, c])) _ _ _ (memLp_coord_ellSet _ hp 0)
+      (memLp_coord_ellSet _ hp 1) (memLp_coord_ellSet _ hp 2) ⟨q 0, q 1, q 2⟩,
+    ← ellipsoidSet_eq, ellipsoid_centred_moments a b c ha hb hc]
+  rfl
+
+/-- **the moments of the solid ball** `closedBall q r` -/
+theorem C10.ball_moments_integral (r : ℝ) (hr : 0 < r) (q : 𝔼 3) :
+    momOf3 (volume.restrict (Metric.closedBall q r)) (fun p => p 0) (fun p => p 1) (fun p => p 2)
+      = CSpec.ballAt Real.pi r ⟨q 0, q 1, q 2⟩ := by
+  have h := ellipsoid_moments_integral r r r hr hr hr q
+  rw [ellipsoidSetAt_eq] at h
+  have e : (![r, r, r] : Fin 3 → ℝ) = fun _ => r := by funext i; fin_cases i <;> rfl
+  rw [closedBall_eq_ellSetAt q r hr, ← e, h]
+  rfl
+
+/-- **the moments of the solid ellipse (any centre)** -/
+theorem C10.ellipse_moments_integral (a b : ℝ) (ha : 0 < a) (hb : 0 < b) (q : 𝔼 2) :
+    momOf2 (volume.restrict (ellipseSetAt a b q)) (fun p => p 0) (fun p => p 1)
+      = CSpec.ellipseAt Real.pi a b (q 0) (q 1) := by
+  have hp := pos2 ha hb
+  have := isFiniteMeasure_ellSet _ hp
+  rw [ellipseSetAt_eq, momOf2_translate,
+    moments_shift_integral2 (volume.restrict (ellSet ![a, b])) _ _ (memLp_coord_ellSet _ hp 0)
+      (memLp_coord_ellSet _ hp 1) (q 0) (q 1),
+    ← ellipseSet_eq, ellipse_centred_moments a b ha hb]
+  rfl
+
+/-- **the moments of the disc** `closedBall q r` -/
+theorem C10.disc_moments_integral (r : ℝ) (hr : 0 < r) (q : 𝔼 2) :
+    momOf2 (volume.restrict (Metric.closedBall q r)) (fun p => p 0) (fun p => p 1)
+      = CSpec.discAt Real.pi r (q 0) (q 1) := by
+  have h := ellipse_moments_integral r r hr hr q
+  rw [ellipseSetAt_eq] at h
+  have e : (![r, r] : Fin 2 → ℝ) = fun _ => r := by funext i; fin_cases i <;> rfl
+  rw [closedBall_eq_ellSetAt q r hr, ← e, h]
+  simp only [CSpec.ellipseAt, CSpec.discAt, CSpec.ellipseCentred, CSpec.discCentred]
+
+/-- **Ellipsoid.inertia_tensor is the inertia integral** `∫_E (|p|² 1 − p pᵀ) dp` over the solid ellipsoid with
+semi-axes `a,b,c` (along x,y,z, any order of sizes) centred at `q`, for all positive semi-axes and every centre.
+No trusted closed form: the integral is Mathlib's Lebesgue integral. -/
+theorem C10.ellipsoid_inertia (a b c : ℝ) (ha : 0 < a) (hb : 0 < b) (hc : 0 < c) (q : 𝔼 3) :
+    Ellipsoid.inertiaTensor a b c ⟨q 0, q 1, q 2⟩
+      = inertiaIntegral (volume.restrict (ellipsoidSetAt a b c q)) (fun p => p 0) (fun p => p 1) (fun p => p 2) := by
+  have hp := pos3 ha hb hc
+  have := isFiniteMeasure_ellSet _ hp
+  have hmem : ∀ i : Fin 3, MemLp (fun p : 𝔼 3 => p i) 2 (volume.restrict (ellipsoidSetAt a b c q)) := by
+    intro i
+    have : IsFiniteMeasure (volume.restrict (ellipsoidSetAt a b c q)) :=
+      ⟨by rw [Measure.restrict_apply_univ, ellipsoidSetAt_eq, ellSetAt_eq, measure_preimage_add_right]
+          exact (isBounded_ellSet _ hp).measure_lt_top⟩
+    apply MemLp.of_bound (continuous_coord i).aestronglyMeasurable (a + b + c + |q i|)
+    rw [ellipsoidSetAt_eq]
+    apply ae_restrict_of_forall_mem (measurableSet_ellSetAt _ q)
+    intro x hx
+    rw [ellSetAt_eq] at hx
+    have h1 := abs_coord_le_of_mem_ellSet _ hp hx i
+    have h2 : (![a, b, c] : Fin 3 → ℝ) i ≤ a + b + c := by fin_cases i <;> simp <;> linarith
+    have h3 : x i = (x + -q) i + q i := by simp
+    rw [Real.norm_eq_abs, h3]
+    exact (abs_add_le _ _).trans (by linarith)
+  rw [inertiaIntegral_eq _ _ _ _ (hmem 0) (hmem 1) (hmem 2), ellipsoid_moments_integral a b c ha hb hc q,
+    ellipsoid_inertia_exact]
+
+/-- **Sphere.inertia_tensor is the inertia integral** over the solid ball `closedBall q r` -/
+theorem C10.sphere_inertia (r : ℝ) (hr : 0 < r) (q : 𝔼 3) :
+    Sphere.inertiaTensor r ⟨q 0, q 1, q 2⟩
+      = inertiaIntegral (volume.restrict (Metric.closedBall q r)) (fun p => p 0) (fun p => p 1) (fun p => p 2) := by
+  have h := ellipsoid_inertia r r r hr hr hr q
+  rw [ellipsoidSetAt_eq] at h
+  have e : (![r, r, r] : Fin 3 → ℝ) = fun _ => r := by funext i; fin_cases i <;> rfl
+  rw [closedBall_eq_ellSetAt q r hr, ← e, ← h, ellipsoid_inertia_sphere]
+
+example : Ellipsoid.inertiaTensor (3 : ℝ) 2 1 ⟨(EuclideanSpace.single 0 (7 : ℝ) : 𝔼 3) 0, (EuclideanSpace.single 0 (7 : ℝ) : 𝔼 3) 1,
+      (EuclideanSpace.single 0 (7 : ℝ) : 𝔼 3) 2⟩
+    = inertiaIntegral (volume.restrict (ellipsoidSetAt 3 2 1 (EuclideanSpace.single 0 (7 : ℝ)))) (fun p => p 0) (fun p => p 1)
+        (fun p => p 2) :=
+  ellipsoid_inertia 3 2 1 (by norm_num) (by norm_num) (by norm_num) _
 
 /-! ## 2. Circle / Ellipse: planar and polar moments
 
@@ -266,6 +386,93 @@ theorem C10.ellipse_polar_exact (a b : ℝ) (c : V3 ℝ) :
 theorem C10.ellipse_inertia2d_zz (a b : ℝ) (c : V3 ℝ) :
     (Ellipse.inertiaTensor a b c).zz = (CSpec.ellipseAt Real.pi a b c.x c.y).polar := by
   unfold_curved; ring
+
+/-! ### 2b. the same statements against the Lebesgue integrals over the disc / solid ellipse
+
+`(momOf2 (volume.restrict S) x y).planar = (∫_S y², ∫_S x², ∫_S xy)`, `.polar = ∫_S x² + ∫_S y²`. -/
+
+/-- `Circle.planar_moments_inertia` equals the integrals `(∫y², ∫x², ∫xy)` over the disc iff `cx² = cy²` -/
+theorem C10.circle_moments_integral_iff (r : ℝ) (hr : 0 < r) (q : 𝔼 2) (z : ℝ) :
+    Circle.planarMoments r ⟨q 0, q 1, z⟩
+        = (momOf2 (volume.restrict (Metric.closedBall q r)) (fun p => p 0) (fun p => p 1)).planar
+      ↔ q 0 ^ 2 = q 1 ^ 2 := by
+  rw [disc_moments_integral r hr q]
+  have := circle_moments_iff r ⟨q 0, q 1, z⟩
+  simp only [hr.ne', false_or] at this
+  exact this
+
+/-- PARTIAL (centres with `cx² = cy²` only; the general centre is wrong in the code: `circle_moments_integral_fails`) -/
+theorem C10.circle_moments_integral_partial (r : ℝ) (hr : 0 < r) (q : 𝔼 2) (z : ℝ) (h : q 0 ^ 2 = q 1 ^ 2) :
+    Circle.planarMoments r ⟨q 0, q 1, z⟩
+      = (momOf2 (volume.restrict (Metric.closedBall q r)) (fun p => p 0) (fun p => p 1)).planar :=
+  (circle_moments_integral_iff r hr q z).mpr h
+
+example : ((!₂[1, -1] : 𝔼 2) 0) ^ 2 = ((!₂[1, -1] : 𝔼 2) 1) ^ 2 := by simp
+
+/-- the code violates the property at `Circle(1, (2,3,0))`: its `(I_x, I_y, I_xy)` are not the integrals over that disc -/
+theorem C10.circle_moments_integral_fails :
+    ¬ (Circle.planarMoments (1 : ℝ) ⟨(!₂[2, 3] : 𝔼 2) 0, (!₂[2, 3] : 𝔼 2) 1, 0⟩
+        = (momOf2 (volume.restrict (Metric.closedBall (!₂[2, 3] : 𝔼 2) 1)) (fun p => p 0) (fun p => p 1)).planar) := by
+  rw [circle_moments_integral_iff 1 one_pos]
+  norm_num
+
+/-- `I_xy`, the polar moment and `inertia_tensor[2,2]` of the circle are the integrals, for every centre -/
+theorem C10.circle_ixy_polar_integral (r : ℝ) (hr : 0 < r) (q : 𝔼 2) (z : ℝ) :
+    (Circle.planarMoments r ⟨q 0, q 1, z⟩).2.2 = ∫ p in Metric.closedBall q r, p 0 * p 1 ∧
+    Circle.polarMoment r ⟨q 0, q 1, z⟩
+      = (∫ p in Metric.closedBall q r, p 0 * p 0) + ∫ p in Metric.closedBall q r, p 1 * p 1 ∧
+    (Circle.inertiaTensor r ⟨q 0, q 1, z⟩).zz
+      = (∫ p in Metric.closedBall q r, p 0 * p 0) + ∫ p in Metric.closedBall q r, p 1 * p 1 := by
+  have h := disc_moments_integral r hr q
+  have h1 : ∫ p in Metric.closedBall q r, p 0 * p 1 = (CSpec.discAt Real.pi r (q 0) (q 1)).planar.2.2 := by
+    rw [← h]; rfl
+  have h2 : (∫ p in Metric.closedBall q r, p 0 * p 0) + ∫ p in Metric.closedBall q r, p 1 * p 1
+      = (CSpec.discAt Real.pi r (q 0) (q 1)).polar := by
+    rw [← h]; rfl
+  rw [h1, h2]
+  exact ⟨circle_ixy_exact r ⟨q 0, q 1, z⟩, circle_polar_exact r ⟨q 0, q 1, z⟩, circle_inertia2d_zz r ⟨q 0, q 1, z⟩⟩
+
+theorem C10.ellipse_moments_integral_iff (a b : ℝ) (ha : 0 < a) (hb : 0 < b) (q : 𝔼 2) (z : ℝ) :
+    Ellipse.planarMoments a b ⟨q 0, q 1, z⟩
+        = (momOf2 (volume.restrict (ellipseSetAt a b q)) (fun p => p 0) (fun p => p 1)).planar
+      ↔ q 0 ^ 2 = q 1 ^ 2 := by
+  rw [ellipse_moments_integral a b ha hb q]
+  have := ellipse_moments_iff a b ⟨q 0, q 1, z⟩
+  simp only [ha.ne', hb.ne', false_or] at this
+  exact this
+
+/-- PARTIAL (centres with `cx² = cy²` only; see `ellipse_moments_integral_fails`) -/
+theorem C10.ellipse_moments_integral_partial (a b : ℝ) (ha : 0 < a) (hb : 0 < b) (q : 𝔼 2) (z : ℝ)
+    (h : q 0 ^ 2 = q 1 ^ 2) :
+    Ellipse.planarMoments a b ⟨q 0, q 1, z⟩
+      = (momOf2 (volume.restrict (ellipseSetAt a b q)) (fun p => p 0) (fun p => p 1)).planar :=
+  (ellipse_moments_integral_iff a b ha hb q z).mpr h
+
+example : ((0 : 𝔼 2) 0) ^ 2 = ((0 : 𝔼 2) 1) ^ 2 := by simp
+
+theorem C10.ellipse_moments_integral_fails :
+    ¬ (Ellipse.planarMoments (2 : ℝ) 1 ⟨(!₂[2, 3] : 𝔼 2) 0, (!₂[2, 3] : 𝔼 2) 1, 0⟩
+        = (momOf2 (volume.restrict (ellipseSetAt 2 1 (!₂[2, 3] : 𝔼 2))) (fun p => p 0) (fun p => p 1)).planar) := by
+  rw [ellipse_moments_integral_iff 2 1 (by norm_num) one_pos]
+  norm_num
+
+theorem C10.ellipse_ixy_polar_integral (a b : ℝ) (ha : 0 < a) (hb : 0 < b) (q : 𝔼 2) (z : ℝ) :
+    (Ellipse.planarMoments a b ⟨q 0, q 1, z⟩).2.2 = ∫ p in ellipseSetAt a b q, p 0 * p 1 ∧
+    Ellipse.polarMoment a b ⟨q 0, q 1, z⟩
+      = (∫ p in ellipseSetAt a b q, p 0 * p 0) + ∫ p in ellipseSetAt a b q, p 1 * p 1 ∧
+    (Ellipse.inertiaTensor a b ⟨q 0, q 1, z⟩).zz
+      = (∫ p in ellipseSetAt a b q, p 0 * p 0) + ∫ p in ellipseSetAt a b q, p 1 * p 1 := by
+  have h := ellipse_moments_integral a b ha hb q
+  have h1 : ∫ p in ellipseSetAt a b q, p 0 * p 1 = (CSpec.ellipseAt Real.pi a b (q 0) (q 1)).planar.2.2 := by
+    rw [← h]; rfl
+  have h2 : (∫ p in ellipseSetAt a b q, p 0 * p 0) + ∫ p in ellipseSetAt a b q, p 1 * p 1
+      = (CSpec.ellipseAt Real.pi a b (q 0) (q 1)).polar := by
+    rw [← h]; rfl
+  rw [h1, h2]
+  exact ⟨ellipse_ixy_exact a b ⟨q 0, q 1, z⟩, ellipse_polar_exact a b ⟨q 0, q 1, z⟩,
+    ellipse_inertia2d_zz a b ⟨q 0, q 1, z⟩⟩
+
+example : (0 : ℝ) < 2 ∧ (0 : ℝ) < 1 := by norm_num
 
 /-! ## 3. Areas and volumes are Lebesgue measures of the point sets -/
 
@@ -584,13 +791,13 @@ theorem C10.ellipse_iq_circle (ellipe : ℝ → ℝ) (h0 : ellipe 0 = Real.pi / 
   rw [ellipse_iq_eq, perimeter_circle ellipe h0 r hr, ellipse_area_circle, circle_iq_consistent r hr.ne',
     circle_iq_eq_one, min_self]
 
-/-! ## 7. Ellipsoid surface area (PARTIAL)
+/-! ## 7. Ellipsoid surface area: structure of the code's formula
 
-Proved: invariance under all permutations of the semi-axes (they are sorted first), degree-2
-homogeneity, the sphere value, and the consequences for `iq`.  NOT proved: that Legendre's formula
-`2π(c² + ab/sinφ · (E(φ,m) sin²φ + F(φ,m) cos²φ))` equals the surface integral of
-`CSpec.surfElement` (and hence `iq ≤ 1` for the ellipsoid); this is checked numerically by the
-harness against adaptive quadrature of that surface integral. -/
+Proved here: invariance under all permutations of the semi-axes (they are sorted first), degree-2
+homogeneity, the sphere value, and the consequences for `iq`.  §8 proves the formula equal to the surface
+integral on spheroids and the isoperimetric inequality.  NOT proved: that Legendre's formula
+`2π(c² + ab/sinφ · (E(φ,m) sin²φ + F(φ,m) cos²φ))` equals the surface integral for THREE DISTINCT axes;
+this is a certificate checked numerically per run against adaptive quadrature of that surface integral. -/
 
 theorem C10.surface_area_swap12 (E K : ℝ → ℝ → ℝ) (a b c : ℝ) :
     Ellipsoid.surfaceArea E K a b c = Ellipsoid.surfaceArea E K b a c := by
@@ -668,8 +875,8 @@ theorem C10.saPhi_range (a c : ℝ) (hc : 0 < c) (hca : c < a) :
 
 example : (0 : ℝ) < 1 ∧ (1 : ℝ) ≤ 2 ∧ (2 : ℝ) ≤ 3 ∧ (1 : ℝ) < 3 := by norm_num
 
-/-- PARTIAL: the three structural facts about `Ellipsoid.surface_area` bundled; missing is
-Legendre's formula = surface integral (see the section comment). -/
+/-- PARTIAL: the three structural facts about `Ellipsoid.surface_area` bundled (all axes); missing is
+Legendre's formula = surface integral for three DISTINCT axes (spheroids: `spheroid_surface_area`, §8). -/
 theorem C10.ellipsoid_surface_area_partial (E K : ℝ → ℝ → ℝ) (a b c k r : ℝ) (hk : 0 < k) :
     (Ellipsoid.surfaceArea E K b a c = Ellipsoid.surfaceArea E K a b c ∧
      Ellipsoid.surfaceArea E K a c b = Ellipsoid.surfaceArea E K a b c) ∧
@@ -718,3 +925,158 @@ theorem C10.surfElement_homog (k a b c θ φ : ℝ) :
   simp only [← mul_assoc] at this ⊢
   rw [this, Real.sqrt_mul (by positivity), Real.sqrt_sq (by positivity)]; ring
 
+
+/-! ## 8. Ellipsoid surface: the defining surface integral, spheroids in full, isoperimetric inequality
+
+`surfaceIntegral a b c = ∫₀^π ∫₀^{2π} |∂θ × ∂φ| dφ dθ` (Mathlib interval integrals of `CSpec.surfElement`).
+
+* the code's formula EQUALS that integral for every spheroid `(a, a, c)` — oblate, spherical or prolate — in every order
+  of the constructor arguments, relative to the contracts `IsEllipeinc / IsEllipkinc` of scipy's incomplete elliptic
+  integrals (evaluated in closed form at `m = 1` / `m = 0`; the surface integral by the fundamental theorem of calculus);
+* for EVERY ellipsoid the surface integral satisfies `S ≥ (4π/3)(ab+bc+ca)`, hence `36πV²/S³ ≤ 27(abc)²/(ab+bc+ca)³ ≤ 1`
+  with equality only for the sphere: `Ellipsoid.iq ≤ 1` is a theorem wherever the code's value is (at least) the surface
+  integral — unconditionally (given the contracts) on spheroids, and relative to the per-run checked certificate
+  `Ellipsoid.surfaceArea = surfaceIntegral` (Legendre's formula, NOT proved for three distinct axes) in general. -/
+
+/-- **`Ellipsoid.surface_area` of a spheroid is the surface integral** (spec axis order: the distinct axis is the polar
+axis of the parametrisation), for `a > c` (oblate), `a = c`, `a < c` (prolate) -/
+theorem C10.spheroid_surface_area (E K : ℝ → ℝ → ℝ) (hE : IsEllipeinc E) (hK : IsEllipkinc K) (a c : ℝ)
+    (ha : 0 < a) (hc : 0 < c) : Ellipsoid.surfaceArea E K a a c = surfaceIntegral a a c := by
+  rcases lt_trichotomy c a with h | h | h
+  · rw [surfaceArea_oblate_code E K hE hK a c hc h, surfaceIntegral_oblate a c hc h]
+  · subst h
+    rw [surface_area_sphere, surfaceIntegral_sphere c hc.le]
+    simp only [Sphere.surfaceArea, Scalar.lit, Scalar.sqr, Scalar.ofNat_real, Nat.cast_ofNat, Scalar.pi_real]; ring
+  · rw [surfaceArea_prolate_code E K hE hK c a ha h, surfaceIntegral_prolate c a ha h]
+
+/-- the same for the other two placements of the distinct semi-axis among the constructor arguments -/
+theorem C10.spheroid_surface_area_perm (E K : ℝ → ℝ → ℝ) (hE : IsEllipeinc E) (hK : IsEllipkinc K) (a c : ℝ)
+    (ha : 0 < a) (hc : 0 < c) :
+    Ellipsoid.surfaceArea E K a c a = surfaceIntegral a a c ∧ Ellipsoid.surfaceArea E K c a a = surfaceIntegral a a c := by
+  refine ⟨?_, ?_⟩
+  · rw [← surface_area_swap23, spheroid_surface_area E K hE hK a c ha hc]
+  · rw [surface_area_swap12 E K c a a, ← surface_area_swap23, spheroid_surface_area E K hE hK a c ha hc]
+
+/-- non-vacuity: Legendre's integrals themselves satisfy the contracts -/
+example : IsEllipeinc (fun φ m => ∫ t in (0:ℝ)..φ, Real.sqrt (1 - m * Real.sin t ^ 2)) ∧
+    IsEllipkinc (fun φ m => ∫ t in (0:ℝ)..φ, (Real.sqrt (1 - m * Real.sin t ^ 2))⁻¹) :=
+  ⟨fun _ _ _ _ _ _ => rfl, fun _ _ _ _ _ _ => rfl⟩
+
+/-- closed forms (oblate: `arsinh`, prolate: `arcsin`) of the surface integral -/
+theorem C10.spheroid_surface_closed_form (a c : ℝ) (hc : 0 < c) (hca : c < a) :
+    surfaceIntegral a a c
+      = 2 * Real.pi * (a ^ 2 + a * c ^ 2 / Real.sqrt (a ^ 2 - c ^ 2) * Real.arsinh (Real.sqrt (a ^ 2 - c ^ 2) / c)) ∧
+    surfaceIntegral c c a
+      = 2 * Real.pi * (c ^ 2 + a ^ 2 * c / Real.sqrt (a ^ 2 - c ^ 2) * Real.arcsin (Real.sqrt (a ^ 2 - c ^ 2) / a)) :=
+  ⟨surfaceIntegral_oblate a c hc hca, surfaceIntegral_prolate a c hc hca⟩
+
+example : (0 : ℝ) < 1 ∧ (1 : ℝ) < 2 := by norm_num
+
+/-- structural facts of the surface integral matching those of the code: sphere value, degree-2 homogeneity,
+monotonicity in a semi-axis, and the lower bound `(4π/3)(ab+bc+ca)` -/
+theorem C10.surfaceIntegral_facts (a b c k : ℝ) (ha : 0 ≤ a) :
+    surfaceIntegral a a a = 4 * Real.pi * a ^ 2 ∧
+    surfaceIntegral (k * a) (k * b) (k * c) = k ^ 2 * surfaceIntegral a b c ∧
+    (∀ a', a ≤ a' → surfaceIntegral a b c ≤ surfaceIntegral a' b c) ∧
+    4 * Real.pi / 3 * (a * b + b * c + c * a) ≤ surfaceIntegral a b c := by
+  refine ⟨surfaceIntegral_sphere a ha, ?_, fun a' h => surfaceIntegral_mono_left a a' b c ha h, surfaceIntegral_ge a b c⟩
+  unfold surfaceIntegral
+  simp only [surfElement_homog, intervalIntegral.integral_const_mul]
+
+/-- the surface integral is symmetric in the two equatorial semi-axes and monotone in all three (the symmetry in
+the POLAR axis — a genuine change of variables on the sphere — is not proved; the code's formula is symmetric in all
+three: `surface_area_perm`) -/
+theorem C10.surfaceIntegral_symm_mono (a b c : ℝ) :
+    surfaceIntegral b a c = surfaceIntegral a b c ∧
+    (∀ a' b' c', 0 ≤ a → 0 ≤ b → 0 ≤ c → a ≤ a' → b ≤ b' → c ≤ c' → surfaceIntegral a b c ≤ surfaceIntegral a' b' c') :=
+  ⟨surfaceIntegral_swap12 a b c, fun a' b' c' ha hb hc h1 h2 h3 => surfaceIntegral_mono a a' b b' c c' ha hb hc h1 h2 h3⟩
+
+/-- **isoperimetric inequality for every ellipsoid**: whenever the reported surface area is at least the surface
+integral (in particular when it equals it), `iq = 36πV²/S³ ≤ 27(abc)²/(ab+bc+ca)³ ≤ 1`, and `< 1` unless `a = b = c` -/
+theorem C10.ellipsoid_isoperimetric (E K : ℝ → ℝ → ℝ) (a b c : ℝ) (ha : 0 < a) (hb : 0 < b) (hc : 0 < c)
+    (hS : surfaceIntegral a b c ≤ Ellipsoid.surfaceArea E K a b c) :
+    Ellipsoid.iq E K a b c ≤ iqBound a b c ∧ Ellipsoid.iq E K a b c ≤ 1 ∧
+      (¬ (a = b ∧ b = c) → Ellipsoid.iq E K a b c < 1) := by
+  have h := iq3_surfaceIntegral_le a b c ha hb hc _ hS
+  exact ⟨h, h.trans (iqBound_le_one a b c ha hb hc), fun hne => lt_of_le_of_lt h (iqBound_lt_one a b c ha hb hc hne)⟩
+
+/-- the isoperimetric clause relative to the Legendre certificate (checked numerically per run) -/
+theorem C10.ellipsoid_iq_of_legendre (E K : ℝ → ℝ → ℝ) (a b c : ℝ) (ha : 0 < a) (hb : 0 < b) (hc : 0 < c)
+    (hL : Ellipsoid.surfaceArea E K a b c = surfaceIntegral a b c) :
+    Ellipsoid.iq E K a b c ≤ 1 ∧ (Ellipsoid.iq E K a b c = 1 ↔ (a = b ∧ b = c)) := by
+  obtain ⟨-, h1, h2⟩ := ellipsoid_isoperimetric E K a b c ha hb hc hL.ge
+  refine ⟨h1, ⟨fun h => by_contra fun hne => (h2 hne).ne h, ?_⟩⟩
+  rintro ⟨rfl, rfl⟩
+  exact ellipsoid_iq_sphere E K a ha.ne'
+
+/-- **"iq at most 1, equal to 1 only for the sphere" for spheroids** (any argument order), relative only to the
+contracts of the incomplete elliptic integrals -/
+theorem C10.spheroid_iq (E K : ℝ → ℝ → ℝ) (hE : IsEllipeinc E) (hK : IsEllipkinc K) (a c : ℝ) (ha : 0 < a) (hc : 0 < c) :
+    Ellipsoid.iq E K a a c ≤ 1 ∧ (Ellipsoid.iq E K a a c = 1 ↔ a = c) ∧
+    Ellipsoid.iq E K a c a = Ellipsoid.iq E K a a c ∧ Ellipsoid.iq E K c a a = Ellipsoid.iq E K a a c := by
+  obtain ⟨h1, h2⟩ := ellipsoid_iq_of_legendre E K a a c ha ha hc (spheroid_surface_area E K hE hK a c ha hc)
+  refine ⟨h1, ?_, ?_, ?_⟩
+  · rw [h2]; exact ⟨fun h => h.2, fun h => ⟨rfl, h⟩⟩
+  · exact ((ellipsoid_iq_perm E K a a c).2)
+  · rw [← (ellipsoid_iq_perm E K c a a).1]; exact ((ellipsoid_iq_perm E K a a c).2)
+
+example : (0 : ℝ) < 2 ∧ (0 : ℝ) < 1 := by norm_num
+
+/-! ## 9. Shapes reached through their setters
+
+The property speaks about the shape with its CURRENT attributes, however it got them.  In the model (as in the code)
+the classes store nothing but the attributes: after any history of statements — axis / radius assignments (failing ones
+included), centre assignments, reads of any getter, `to_hoomd` — every attribute is the value of its last successful
+assignment, so every getter equals the getter of the freshly constructed shape.  The harness drives the implementation
+through such histories and compares with `St.run` (op `c10.history.run`) and with the fresh shape. -/
+
+/-- **history independence**: if a history assigns (successfully) `a, b, c` and the centre at least once, the final state
+is the one of the fresh shape with the last assigned values, whatever the initial shape and whatever else happened -/
+theorem C10.history_independent (s : St ℝ) (steps : List (Step ℝ)) (a b c : ℝ) (q : V3 ℝ)
+    (ha : lastA steps = some a) (hb : lastB steps = some b) (hc : lastC steps = some c) (hq : lastCen steps = some q) :
+    s.run steps = ⟨a, b, c, q⟩ := by
+  have h1 := St.run_a s steps
+  have h2 := St.run_b s steps
+  have h3 := St.run_c s steps
+  have h4 := St.run_cen s steps
+  rw [ha] at h1; rw [hb] at h2; rw [hc] at h3; rw [hq] at h4
+  cases h : s.run steps with
+  | mk a' b' c' q' =>
+    rw [h] at h1 h2 h3 h4
+    simp only [Option.getD_some] at h1 h2 h3 h4
+    rw [h1, h2, h3, h4]
+
+/-- the one-axis classes (Circle, Sphere: `radius = a`) and the two-axis class: the attributes they read -/
+theorem C10.history_independent_partial (s : St ℝ) (steps : List (Step ℝ)) :
+    (s.run steps).a = (lastA steps).getD s.a ∧ (s.run steps).b = (lastB steps).getD s.b ∧
+    (s.run steps).c = (lastC steps).getD s.c ∧ (s.run steps).cen = (lastCen steps).getD s.cen :=
+  ⟨St.run_a s steps, St.run_b s steps, St.run_c s steps, St.run_cen s steps⟩
+
+/-- reads, `to_hoomd` and failed assignments change nothing -/
+theorem C10.history_noop (s : St ℝ) (v : ℝ) (hv : ¬ 0 < v) :
+    s.step .read = s ∧ s.step .toHoomd = s ∧ s.step (.setA v) = s ∧ s.step (.setB v) = s ∧ s.step (.setC v) = s ∧
+    s.raises (.setA v) = true ∧ s.raises .read = false ∧ s.raises .toHoomd = false := by
+  simp [St.step_eq, St.raises_eq, hv]
+
+/-- read-back of a successful assignment -/
+theorem C10.history_read_back (s : St ℝ) (v : ℝ) (hv : 0 < v) (q : V3 ℝ) :
+    s.step (.setA v) = { s with a := v } ∧ s.step (.setB v) = { s with b := v } ∧ s.step (.setC v) = { s with c := v } ∧
+    s.step (.setCen q) = { s with cen := q } ∧ s.raises (.setA v) = false := by
+  simp [St.step_eq, St.raises_eq, hv]
+
+/-- consequence for the measures (here: the two getters that a cache would most plausibly serve): after ANY history
+ending in the attributes `(a,b,c,q)` they are those of the fresh `Ellipsoid(a,b,c,q)` -/
+theorem C10.ellipsoid_getters_after_history (E K : ℝ → ℝ → ℝ) (s : St ℝ) (steps : List (Step ℝ)) (a b c : ℝ) (q : V3 ℝ)
+    (ha : lastA steps = some a) (hb : lastB steps = some b) (hc : lastC steps = some c) (hq : lastCen steps = some q) :
+    let t := s.run steps
+    Ellipsoid.surfaceArea E K t.a t.b t.c = Ellipsoid.surfaceArea E K a b c ∧
+    Ellipsoid.iq E K t.a t.b t.c = Ellipsoid.iq E K a b c ∧
+    Ellipsoid.inertiaTensor t.a t.b t.c t.cen = Ellipsoid.inertiaTensor a b c q := by
+  rw [history_independent s steps a b c q ha hb hc hq]
+  exact ⟨rfl, rfl, rfl⟩
+
+/-- non-vacuity: the history the harness uses (warm, assign in a shuffled order, a failed assignment in between) -/
+example : (⟨7, 8, 9, ⟨1, 1, 1⟩⟩ : St ℝ).run
+      [.read, .setC 1, .toHoomd, .setA (-5), .setCen ⟨2, 3, 5⟩, .setA 3, .read, .setB 2]
+    = ⟨3, 2, 1, ⟨2, 3, 5⟩⟩ := by
+  apply history_independent <;> simp [lastA, lastB, lastC, lastCen, assignA, assignB, assignC, assignCen]
